@@ -471,7 +471,8 @@ class _Inliner:
                     bind[first] = recv
                 else:
                     r = ast.unparse(recv)
-                    bind[first] = recv if (r == 'cls' or r[:1].isupper()) else ast.Attribute(value=recv, attr='__class__', ctx=ast.Load())
+                    bind[first] = recv if (r == 'cls' or r[:1].isupper() or r.endswith('.__class__') or r.startswith('type(') or r.split('.')[-1][:1].isupper()) \
+                        else ast.Attribute(value=recv, attr='__class__', ctx=ast.Load())
             if any(isinstance(a, ast.Starred) for a in call.args) or any(k.arg is None for k in call.keywords) or len(call.args) > len(pos):
                 return changed
             for p_, a in zip(pos, call.args):
@@ -518,7 +519,8 @@ class _Inliner:
                 bind[first] = recv
             else:
                 r = ast.unparse(recv)
-                bind[first] = recv if (r == 'cls' or r[:1].isupper()) else ast.Attribute(value=recv, attr='__class__', ctx=ast.Load())
+                bind[first] = recv if (r == 'cls' or r[:1].isupper() or r.endswith('.__class__') or r.startswith('type(') or r.split('.')[-1][:1].isupper()) \
+                        else ast.Attribute(value=recv, attr='__class__', ctx=ast.Load())
         if any(isinstance(a, ast.Starred) for a in call.args):
             return None
         if any(k.arg is None for k in call.keywords) and not (fn.args.kwarg and all(_pure(k.value) for k in call.keywords if k.arg is None)):
@@ -2105,12 +2107,88 @@ def materialise_generated_methods(mods):
     return made
 
 
+def split_homonyms(mods, baseline):
+    """New helper methods that carry the same name in UNRELATED classes (`Bits._bitwise` and `BitStore._bitwise`) and are only ever
+    called on self/cls: each gets a name of its own (`_bitwise__Bits`), in its class, the subclasses and the calls there, so that
+    they can be told apart by name afterwards.  Nothing else about the program changes."""
+    classes = {}
+    for mod, tree in mods.items():
+        if mod == 'luts':
+            continue
+        for n in tree.body:
+            if isinstance(n, ast.ClassDef):
+                classes[n.name] = (mod, n)
+
+    def ancestors(c, seen=()):
+        out = set()
+        if c not in classes or c in seen:
+            return out
+        for b in classes[c][1].bases:
+            bn = b.attr if isinstance(b, ast.Attribute) else getattr(b, 'id', None)
+            if bn in classes:
+                out.add(bn)
+                out |= ancestors(bn, seen + (c,))
+        return out
+    defs = {}
+    for key, mod, cls, fn, _c in _functions(mods):
+        if cls is not None and key not in baseline and not (fn.name.startswith('__') and fn.name.endswith('__')):
+            defs.setdefault(fn.name, []).append((cls, fn))
+    # names also defined at module level or by reviewed functions stay as they are
+    taken = {fn.name for key, mod, cls, fn, _c in _functions(mods) if key in baseline or cls is None}
+    done = {}
+    for name, ds in defs.items():
+        if len(ds) < 2 or name in taken:
+            continue
+        owners = [c for c, _f in ds]
+        if len(set(owners)) != len(owners):
+            continue
+        if any(a in ancestors(b) or b in ancestors(a) for a in owners for b in owners if a != b):
+            continue          # an override: dynamic dispatch decides, not the name
+        # every use of the name must be self.<name> / cls.<name> inside a class whose hierarchy holds exactly one of the owners
+        plan = {}
+        ok = True
+        for cname, (mod, cnode) in classes.items():
+            line = {cname} | ancestors(cname)
+            mine = [o for o in owners if o in line]
+            uses = [x for x in ast.walk(cnode) if isinstance(x, ast.Attribute) and x.attr == name]
+            if not uses and cname not in owners:
+                continue
+            if len(mine) != 1 or any(not (isinstance(x.value, ast.Name) and x.value.id in ('self', 'cls')) for x in uses):
+                ok = False
+                break
+            plan[cname] = mine[0]
+        if ok:
+            for mod, tree in mods.items():
+                if mod == 'luts':
+                    continue
+                inside = {id(y) for (m_, cnode) in classes.values() for y in ast.walk(cnode)}
+                if any((isinstance(x, ast.Attribute) and x.attr == name and id(x) not in inside) or (isinstance(x, ast.Name) and x.id == name)
+                       for x in ast.walk(tree)):
+                    ok = False
+        if not ok:
+            continue
+        for cname, owner in plan.items():
+            new = f'{name}__{owner}'
+            cnode = classes[cname][1]
+            for x in ast.walk(cnode):
+                if isinstance(x, ast.Attribute) and x.attr == name:
+                    x.attr = new
+                elif isinstance(x, ast.FunctionDef) and x.name == name and x in cnode.body:
+                    x.name = new
+            done[(cname, name)] = new
+    return done
+
+
 def integrate(mods, src):
     """Inline new helpers in place.  Returns {module: {function name: original def line}} for the modules that changed
     (their trees are re-parsed from the rewritten text, so line numbers inside them are synthetic)."""
     baseline = baseline_functions()
     if not baseline:
         return {}, []
+    try:
+        split_homonyms(mods, baseline)
+    except Exception:
+        pass
     try:
         unrolled = unroll_tables(mods)
     except Exception:
